@@ -274,3 +274,78 @@ Proof.
   apply (gint_ext (fun x => x ^ 0 * peval f x * exp (- p * x ^ 2)) _ (J0 * Eaux RKd (vR p) 0 f));
     [intro x; cbn [pow]; ring | reflexivity | now apply gauss_bridge_aux].
 Qed.
+
+(* ------------------------------------------------------------------ *)
+(* what [gint] says, spelled out: for every eps there is M such that every proper integral over
+   [a, b] with a < -M and M < b exists and is within eps of l *)
+Lemma gint_spelled_out (g : R -> R) (l : R) :
+  gint g l <->
+  (forall eps : posreal, exists M : R, forall a b : R, a < - M -> M < b ->
+     exists y : R, is_RInt g a b y /\ Rabs (y - l) < eps).
+Proof.
+  unfold gint, is_RInt_gen, filterlimi, filter_le, filtermapi. split.
+  - intros H eps.
+    destruct (H (fun y => Rabs (y - l) < eps)) as [Q1 Q2 [M1 H1] [M2 H2] HQ].
+    { exists eps. intros y Hy. exact Hy. }
+    exists (Rmax (- M1) M2). intros a b Ha Hb.
+    apply (HQ a b).
+    + apply H1. pose proof (Rmax_l (- M1) M2). lra.
+    + apply H2. pose proof (Rmax_r (- M1) M2). lra.
+  - intros H P [eps HP]. destruct (H eps) as [M HM].
+    apply (Filter_prod _ _ _ (fun a => a < - M) (fun b => M < b)).
+    + exists (- M). intros x Hx. exact Hx.
+    + exists M. intros x Hx. exact Hx.
+    + intros a b Ha Hb. destruct (HM a b Ha Hb) as [y [Hy Hd]]. exists y. split; [exact Hy|].
+      apply HP. exact Hd.
+Qed.
+
+(* translation of the integration variable: the centre P of DESIGN.md 2.3 *)
+Lemma gint_shift (g : R -> R) (l c : R) : gint g l -> gint (fun x => g (x - c)) l.
+Proof.
+  rewrite !gint_spelled_out. intros H eps. destruct (H eps) as [M HM].
+  exists (M + Rabs c). intros a b Ha Hb. pose proof (Rle_abs c). pose proof (Rle_abs (- c)) as H'.
+  rewrite Rabs_Ropp in H'.
+  destruct (HM (a - c) (b - c)) as [y [Hy Hd]]; [lra | lra |].
+  exists y. split; [|exact Hd].
+  apply (is_RInt_ext (fun x => scal 1 (g (1 * x + - c)))).
+  - intros x _. unfold scal; cbn. unfold mult; cbn. rewrite Rmult_1_l. f_equal. ring.
+  - apply (is_RInt_comp_lin g 1 (- c) a b y).
+    replace (1 * a + - c) with (a - c) by ring. replace (1 * b + - c) with (b - c) by ring. exact Hy.
+Qed.
+
+Theorem gauss_bridge_shift (p P J0 : R) : 0 < p ->
+  gint (fun x => exp (- p * x ^ 2)) J0 ->
+  forall f, gint (fun x => peval f (x - P) * exp (- p * (x - P) ^ 2)) (J0 * E RKd (vR p) f).
+Proof.
+  intros Hp H0 f.
+  exact (gint_shift (fun y => peval f y * exp (- p * y ^ 2)) _ P (gauss_bridge p J0 Hp H0 f)).
+Qed.
+
+(* ------------------------------------------------------------------ *)
+(* (f) the final form of (B1), modulo the value of the Gaussian integral *)
+Definition Gint (g : R -> R) : R := RInt_gen g (Rbar_locally m_infty) (Rbar_locally p_infty).
+
+Lemma Gint_correct g l : gint g l -> Gint g = l.
+Proof. intro H. exact (is_RInt_gen_unique g l H). Qed.
+
+Lemma sqrt_pi_p_pos p : 0 < p -> 0 < sqrt (PI / p).
+Proof. intro Hp. apply sqrt_lt_R0. apply Rdiv_lt_0_compat; [apply PI_RGT_0 | exact Hp]. Qed.
+
+Theorem bridge_B1_modulo_gaussian_integral (p P : R) : 0 < p ->
+  gint (fun x => exp (- p * x ^ 2)) (sqrt (PI / p)) ->
+  forall f : list R,
+    gint (fun x => peval f (x - P) * exp (- p * (x - P) ^ 2)) (sqrt (PI / p) * E RKd (vR p) f)
+    /\ Gint (fun x => peval f (x - P) * exp (- p * (x - P) ^ 2)) / sqrt (PI / p) = E RKd (vR p) f.
+Proof.
+  intros Hp H0 f. pose proof (gauss_bridge_shift p P _ Hp H0 f) as H. split; [exact H|].
+  rewrite (Gint_correct _ _ H). field. apply Rgt_not_eq. now apply sqrt_pi_p_pos.
+Qed.
+
+(* monomials (x-P)^n: the statement (B1) of DESIGN.md 2.6 *)
+Corollary bridge_B1_monomials (p P : R) : 0 < p ->
+  gint (fun x => exp (- p * x ^ 2)) (sqrt (PI / p)) ->
+  forall n, gint (fun x => (x - P) ^ n * exp (- p * (x - P) ^ 2)) (sqrt (PI / p) * momR p n).
+Proof.
+  intros Hp H0 n.
+  exact (gint_shift (gw p n) _ P (gauss_moments p _ Hp H0 n)).
+Qed.
